@@ -77,7 +77,7 @@ Proof.
     destruct H as (-> & -> & Hy). split; [assumption|split; assumption].
   - destruct (i_det_storage st) eqn:Hd; [|reflexivity]. split; [reflexivity|]. split; [|reflexivity].
     exact (parse_storage_invalid _ _ E).
-  - cbn [orb]. destruct (i_det_storage st); [exact I|reflexivity].
+  - cbn [orb]. destruct (i_det_storage st); [exact I|]. cbn [orb]. destruct (MIN_DLT_MSG_SIZE <=? blen w); [exact I|reflexivity].
 Qed.
 
 Lemma serial_half_cases st w :
@@ -267,7 +267,7 @@ Proof.
   unfold storage_half. destruct (parse_storage (i_index st) w) as [n0 m0| |k].
   - intros E. apply on_msg_yield in E. destruct E; subst. reflexivity.
   - destruct (i_det_storage st); discriminate.
-  - destruct (false || i_det_storage st); discriminate.
+  - destruct (false || i_det_storage st || (MIN_DLT_MSG_SIZE <=? blen w)); discriminate.
 Qed.
 Lemma serial_half_yield st w n m st' : serial_half st w = Ok (AYield n m st') -> parse_serial (i_index st) w = PMsg n m.
 Proof.
@@ -399,7 +399,7 @@ Proof.
     + intros E2. inversion E2; subst. split.
       * apply storage_half_yield in E. exact (parse_storage_index _ _ _ _ E).
       * unfold storage_half in E. destruct (parse_storage (i_index st) data);
-          try (destruct (i_det_storage st); discriminate); try (destruct (false || i_det_storage st); discriminate).
+          try (destruct (i_det_storage st); discriminate); try (destruct (false || i_det_storage st || (MIN_DLT_MSG_SIZE <=? blen data)); discriminate).
         exact (on_msg_ok _ _ _ _ _ E).
     + intros E2. pose proof (storage_half_cases st data) as Hc. rewrite E in Hc. destruct Hc as (-> & _ & _).
       exact (IH _ _ _ _ _ E2).
